@@ -521,8 +521,7 @@ impl ConfigActor {
         //self.config_db.del_config(&key).ok();
         self.tenant_index.remove_config(&key);
         self.listener.notify(key.clone());
-        self.subscriber.notify(key.clone());
-        self.subscriber.remove_config_key(key);
+        self.subscriber.notify(key);
         Ok(())
     }
 
